@@ -35,9 +35,9 @@ Proof.
   - destruct args; [reflexivity | discriminate].
 Qed.
 
-(* a field without presentation attributes: only rename and skip *)
+(* a field with rename, skip and inline only *)
 Definition plain_field (f : field) : Prop :=
-  f_inline f = false /\ f_flatten f = false /\ f_optional f = NotOptional /\ f_type f = None /\
+  f_flatten f = false /\ f_optional f = NotOptional /\ f_type f = None /\
   f_skip_none f = false /\ f_serde_ty f = f_ty f /\ mono_ty (f_ty f) = true.
 
 Lemma rsubst_nil : forall t, src_ty 0 t = true -> rsubst [] t = t.
@@ -69,9 +69,15 @@ Notation ev := (ev_mem E).
 
 (* what is known of the field types: their serialisations inhabit their names *)
 Hypothesis Hst : forall t v j a, mono_ty t = true -> st t v = Some j -> name_of R t = Ok a -> ev a j.
+Hypothesis Hinl : forall t v j a, mono_ty t = true -> st t v = Some j -> inl t = Ok a -> ev a j.
+
+(* the type text of a field: inline() or name() *)
+Definition fty (f : field) : outcome tsty := if f_inline f then inl (f_ty f) else name_of R (f_ty f).
+Lemma Hfld f v j a : mono_ty (f_ty f) = true -> st (f_ty f) v = Some j -> fty f = Ok a -> ev a j.
+Proof. unfold fty. destruct (f_inline f); intros Hm Hs Ha; [eapply Hinl | eapply Hst]; eassumption. Qed.
 
 Lemma is_flat_plain f : plain_field f -> is_flat f = false.
-Proof. intros (_ & Hf & _). unfold is_flat. rewrite Hf. reflexivity. Qed.
+Proof. intros (Hf & _). unfold is_flat. rewrite Hf. reflexivity. Qed.
 
 Lemma filter_all {A} (p : A -> bool) l : (forall x, In x l -> p x = true) -> filter p l = l.
 Proof.
@@ -91,21 +97,22 @@ Proof.
   - destruct vs; [|discriminate]. cbn in He, Hp. inversion He; inversion Hp; subst. repeat split; intros; try contradiction; reflexivity.
   - inversion Hpl as [|? ? Hf Hfs]; subst. destruct vs as [|v vs]; [discriminate|]. cbn [named_entries] in He.
     destruct (named_entries st [] ra fs vs) as [rest|] eqn:Hrest; [|discriminate].
-    destruct Hf as (Hin & Hfl & Hopt & Hty & Hsn & Hsty & Hmono). pose proof (mono_src _ Hmono) as Hsrc.
+    destruct Hf as (Hfl & Hopt & Hty & Hsn & Hsty & Hmono). pose proof (mono_src _ Hmono) as Hsrc.
     unfold live in *. cbn [filter] in Hp |- *. destruct (f_skip f) eqn:Hskip; cbn [negb] in Hp |- *.
     + inversion He; subst. eapply IH; eassumption.
     + rewrite Hsn in He. cbn [andb] in He. rewrite Hsty, (rsubst_nil _ Hsrc), Hfl in He.
       destruct (st (f_ty f) v) as [j|] eqn:Hj; [|discriminate]. inversion He; subst; clear He.
       cbn [omap_list] in Hp. unfold prop_of at 1 in Hp. rewrite Hty in Hp.
-      unfold field_ty, field_optional in Hp. rewrite Hopt, Hin in Hp. cbn [fst snd] in Hp. rewrite (rsubst_nil _ Hsrc) in Hp.
-      destruct (name_of R (f_ty f)) as [a|?|?] eqn:Ha; cbn [bind] in Hp; try discriminate.
+      unfold field_ty, field_optional in Hp. rewrite Hopt in Hp. cbn [fst snd] in Hp. rewrite (rsubst_nil _ Hsrc) in Hp.
+      change (if f_inline f then inl (f_ty f) else name_of R (f_ty f)) with (fty f) in Hp.
+      destruct (fty f) as [a|?|?] eqn:Ha; cbn [bind] in Hp; try discriminate.
       destruct (omap_list (prop_of is_alnum is_numeric R inl [] ra NotOptional) (filter (fun fl => negb (f_skip fl)) fs)) as [ps|?|?] eqn:Hps; try discriminate.
       inversion Hp; subst; clear Hp.
       destruct (IH vs rest ps Hfs Hrest eq_refl) as (A & B & C).
       repeat split.
       * intros k j' [Heq|Hin'].
         -- inversion Heq; subst. eexists; eexists. split; [left; reflexivity|]. split; [reflexivity|].
-           eapply Hst; [exact Hmono | eassumption | eassumption].
+           eapply Hfld; [exact Hmono | eassumption | exact Ha].
         -- destruct (A k j' Hin') as (p & t & Hp' & Hk & Hm). exists p, t. split; [right; exact Hp'|]. split; assumption.
       * destruct H as [Heq|Hin']; [inversion Heq; reflexivity | apply (B p t Hin')].
       * destruct H as [Heq|Hin'].
@@ -125,16 +132,17 @@ Proof.
   induction fs as [|f fs IH]; intros vs items tys Hpl He Hp.
   - destruct vs; [|discriminate]. cbn in He, Hp. inversion He; inversion Hp; subst. constructor.
   - inversion Hpl as [|? ? Hf Hfs]; subst. destruct vs as [|v vs]; [discriminate|]. cbn [opt_map2] in He.
-    destruct Hf as (Hin & Hfl & Hopt & Hty & Hsn & Hsty & Hmono). pose proof (mono_src _ Hmono) as Hsrc.
+    destruct Hf as (Hfl & Hopt & Hty & Hsn & Hsty & Hmono). pose proof (mono_src _ Hmono) as Hsrc.
     unfold live in *. cbn [filter] in Hp. destruct (f_skip f) eqn:Hskip; cbn [negb] in Hp.
     + destruct (opt_map2 _ fs vs) as [rest|] eqn:Hrest; [|discriminate]. cbn in He. inversion He; subst.
       eapply IH; [exact Hfs| |exact Hp]. rewrite Hrest. reflexivity.
     + rewrite Hsty, (rsubst_nil _ Hsrc) in He. destruct (st (f_ty f) v) as [j|] eqn:Hj; [|discriminate]. cbn [option_map] in He.
       destruct (opt_map2 _ fs vs) as [rest|] eqn:Hrest; [|discriminate]. cbn in He. inversion He; subst; clear He.
-      cbn [omap_list] in Hp. unfold value_ty at 1 in Hp. rewrite Hty, Hin, (rsubst_nil _ Hsrc) in Hp.
-      destruct (name_of R (f_ty f)) as [a|?|?] eqn:Ha; try discriminate.
+      cbn [omap_list] in Hp. unfold value_ty at 1 in Hp. rewrite Hty, (rsubst_nil _ Hsrc) in Hp.
+      change (if f_inline f then inl (f_ty f) else name_of R (f_ty f)) with (fty f) in Hp.
+      destruct (fty f) as [a|?|?] eqn:Ha; cbn [bind] in Hp; try discriminate.
       destruct (omap_list (value_ty R inl []) (filter (fun fl => negb (f_skip fl)) fs)) as [ts|?|?] eqn:Hts; try discriminate.
-      inversion Hp; subst. constructor; [eapply Hst; [exact Hmono | eassumption | eassumption]|].
+      inversion Hp; subst. constructor; [eapply Hfld; [exact Hmono | eassumption | exact Ha]|].
       eapply IH; [exact Hfs| |reflexivity]. rewrite Hrest. reflexivity.
 Qed.
 
@@ -202,9 +210,10 @@ Proof.
   - destruct fs as [|f [|f2 fs]].
     + cbn in Hs, Hg. unfold tuple_items in Hs. destruct vs; [|discriminate]. cbn in Hs. inversion Hs; inversion Hg; subst. apply ev_neverarr.
     + destruct Hpl as [Hf Hsk]. cbn [shape_ser shape_gen] in Hs, Hg. rewrite Hsk in Hg.
-      destruct vs as [|v [|? ?]]; try discriminate. destruct Hf as (Hin & Hfl & Hopt & Hty & Hsn & Hsty & Hmono). pose proof (mono_src _ Hmono) as Hsrc.
-      rewrite Hsty, (rsubst_nil _ Hsrc) in Hs. unfold value_ty in Hg. rewrite Hty, Hin, (rsubst_nil _ Hsrc) in Hg.
-      destruct (name_of R (f_ty f)) as [a|?|?] eqn:Ha; try discriminate. inversion Hg; subst. cbn [fst]. eapply Hst; [exact Hmono | eassumption | eassumption].
+      destruct vs as [|v [|? ?]]; try discriminate. destruct Hf as (Hfl & Hopt & Hty & Hsn & Hsty & Hmono). pose proof (mono_src _ Hmono) as Hsrc.
+      rewrite Hsty, (rsubst_nil _ Hsrc) in Hs. unfold value_ty in Hg. rewrite Hty, (rsubst_nil _ Hsrc) in Hg.
+      change (if f_inline f then inl (f_ty f) else name_of R (f_ty f)) with (fty f) in Hg.
+      destruct (fty f) as [a|?|?] eqn:Ha; try discriminate. inversion Hg; subst. cbn [fst]. eapply Hfld; [exact Hmono | eassumption | exact Ha].
     + cbn [plain_shape] in Hpl. cbn [shape_ser shape_gen] in Hs, Hg.
       destruct (tuple_items st [] (f :: f2 :: fs) vs) as [items|] eqn:Hi; [|discriminate]. inversion Hs; subst.
       apply bind_ok in Hg as (tys & Htys & Hg). inversion Hg; subst. cbn [fst].
@@ -496,6 +505,60 @@ Proof.
   - destruct args as [|? ?]; [|discriminate]. destruct (lookup R id) as [d|] eqn:Hlk; [|discriminate].
     cbn [omap_list bind] in Ha. inversion Ha; subst. eapply Hsd; eassumption.
 Qed.
+
+(* the same for TS::inline(): derived leaves are inlined (their body), tuples and ranges cannot be *)
+Variable g : dgen.
+Hypothesis Hg : forall id d v j r, lookup R id = Some d -> sd d [] v = Some j -> g d [] = Ok r -> ev (fst r) j.
+
+Theorem lib_inline_ev : forall t v j a,
+  mono_ty t = true -> ser_ty R sd t v = Some j -> lib_inline R g t = Ok a -> ev a j.
+Proof.
+  induction t as [l|t IH|t IH|n t IH|ts IH|k vt IHk IHv|t IH|t e IHt IHe|t IH|id args IH|i|n] using rty_ind';
+    intros v j a Hm Hs Ha; cbn [mono_ty] in Hm; try discriminate; cbn [Gen.lib_inline] in Ha; cbn [Serde.ser_ty] in Hs; try discriminate.
+  - inversion Ha; subst. eapply ev_leaf; exact Hs.
+  - apply bind_ok in Ha as (x & Hx & Ha). inversion Ha; subst. destruct v; try discriminate.
+    + inversion Hs; subst. eapply ev_union; [right; left; reflexivity | apply ev_prim; reflexivity].
+    + eapply ev_union; [left; reflexivity | eapply IH; eassumption].
+  - apply bind_ok in Ha as (x & Hx & Ha). inversion Ha; subst. destruct v; try discriminate.
+    destruct (opt_map (ser_ty R sd t) l) as [js|] eqn:Hl; [|discriminate]. inversion Hs; subst.
+    apply ev_array. eapply opt_map_Forall; [exact Hl|]. intros y z _ Hy. eapply IH; eassumption.
+  - destruct n as [|n'].
+    { inversion Ha; subst. destruct v; try discriminate. destruct l as [|? ?]; [|discriminate]. cbn in Hs. inversion Hs.
+      apply ev_tuple. constructor. }
+    apply bind_ok in Ha as (x & Hx & Ha). inversion Ha; subst. destruct v; try discriminate.
+    destruct (Nat.eqb (length l) (S n')) eqn:Hlen; [|discriminate]. apply Nat.eqb_eq in Hlen.
+    destruct (opt_map (ser_ty R sd t) l) as [js|] eqn:Hl; [|discriminate]. inversion Hs; subst.
+    assert (Hall : Forall (ev x) js).
+    { eapply opt_map_Forall; [exact Hl|]. intros y z _ Hy. eapply IH; eassumption. }
+    assert (Hlenjs : length js = length l).
+    { clear -Hl. revert js Hl. induction l as [|y l IHl]; cbn; intros js H; [inversion H; reflexivity|].
+      destruct (ser_ty R sd t y); [|discriminate]. destruct (opt_map (ser_ty R sd t) l); [|discriminate]. inversion H. cbn. f_equal. apply IHl. reflexivity. }
+    unfold array_ts. destruct (Nat.ltb ARRAY_TUPLE_LIMIT (S n')); [apply ev_array; exact Hall|].
+    apply ev_tuple. rewrite <- Hlen, <- Hlenjs. apply Forall2_repeat_l. exact Hall.
+  - apply bind_ok in Ha as (x & Hx & Ha). apply bind_ok in Ha as (y & Hy & Ha). inversion Ha; subst.
+    apply andb_true_iff in Hm as [Hkl Hvm]. destruct v; try discriminate.
+    match type of Hs with option_map JObj (opt_map ?g0 l) = _ => destruct (opt_map g0 l) as [es|] eqn:Hl; [|discriminate] end.
+    inversion Hs; subst. apply ev_mapped. clear Hs Ha. revert es Hl. induction l as [|e l IHl]; cbn [opt_map]; intros es Hl key j Hin.
+    + inversion Hl; subst. destruct Hin.
+    + destruct (ser_ty R sd k (fst e)) as [kj|] eqn:Hkj; [|discriminate]. destruct (ser_ty R sd vt (snd e)) as [z|] eqn:Hz; [|discriminate].
+      destruct (key_of_json kj) as [ks|] eqn:Hks; [|discriminate]. cbn [option_map] in Hl.
+      destruct (opt_map _ l) as [es'|] eqn:Hl'; [|discriminate]. inversion Hl; subst. destruct Hin as [Heq|Hin].
+      * inversion Heq; subst. split; [|eapply IHv; eassumption].
+        destruct k as [lk| | | | | | | | | | |]; try discriminate. cbn [Gen.lib_inline] in Hx. inversion Hx; subst. cbn [Serde.ser_ty] in Hkj.
+        destruct lk as [big lo hi| | | | |]; try discriminate; destruct (fst e) as [z0|?|?|s|  |  |?|?|?|?|? ?]; cbn [leaf_ser] in Hkj; try discriminate.
+        -- destruct ((lo <=? z0)%Z && (z0 <=? hi)%Z); [|discriminate]. inversion Hkj; subst. cbn in Hks. inversion Hks; subst.
+           destruct big; cbn [leaf_ts]; unfold prim; [rewrite Sem_lib_proofs.key_ok_bigint | rewrite Sem_lib_proofs.key_ok_number]; apply Sem_lib_proofs.z_to_str_digits.
+        -- inversion Hkj; subst. reflexivity.
+        -- destruct s as [|c [|? ?]]; try discriminate. reflexivity.
+      * eapply IHl; [reflexivity | exact Hin].
+  - eapply IH; eassumption.
+  - apply bind_ok in Ha as (x & Hx & Ha). apply bind_ok in Ha as (y & Hy & Ha). inversion Ha; subst.
+    apply andb_true_iff in Hm as [Ht He]. destruct v; try discriminate. destruct idx as [|[|]]; destruct fs as [|v0 [|]]; try discriminate.
+    + destruct (ser_ty R sd t v0) as [z|] eqn:Hz; [|discriminate]. inversion Hs; subst. apply ev_result_ok. eapply IHt; eassumption.
+    + destruct (ser_ty R sd e v0) as [z|] eqn:Hz; [|discriminate]. inversion Hs; subst. apply ev_result_err. eapply IHe; eassumption.
+  - destruct args as [|? ?]; [|discriminate]. destruct (lookup R id) as [d|] eqn:Hlk; [|discriminate].
+    destruct (g d []) as [r| |] eqn:Hr; try discriminate. cbn [omap] in Ha. inversion Ha; subst. eapply Hg; eassumption.
+Qed.
 End LibEv.
 
 (* ============================ decidable scope of the theorem =================================== *)
@@ -545,7 +608,7 @@ Lemma is_none_eq {A} (o : option A) : is_none o = true -> o = None.
 Proof. destruct o; [discriminate | reflexivity]. Qed.
 
 Definition plain_fieldb (f : field) : bool :=
-  negb (f_inline f) && negb (f_flatten f) && match f_optional f with NotOptional => true | _ => false end &&
+  negb (f_flatten f) && match f_optional f with NotOptional => true | _ => false end &&
   is_none (f_type f) && negb (f_skip_none f) && rty_eqb (f_serde_ty f) (f_ty f) && mono_ty (f_ty f).
 
 Lemma plain_fieldb_ok f : plain_fieldb f = true -> plain_field f.
@@ -707,22 +770,50 @@ Qed.
 
 Notation ev := (ev_mem env_of).
 
-Theorem derive_layer_member : forall n t v j a,
-  mono_ty t = true -> ser is_upper R n t v = Some j -> name_of R t = Ok a -> ev a j.
+(* every definition, at every generator fuel: serde's output inhabits the generated body *)
+Lemma def_layer : forall n g d id v j r,
+  lookup R id = Some d -> sdef is_upper R n d [] v = Some j -> gen g d [] = Ok r -> ev (fst r) j.
 Proof.
   unfold plain_envb in Henv. apply andb_true_iff in Henv as [Hall Hnd].
   rewrite forallb_forall in Hall. apply nodupb_NoDup in Hnd.
   assert (Hall' : forall p, In p R -> plain_def (snd p) /\ is_ok (decl_of gf (snd p)) = true).
   { intros p Hp. specialize (Hall p Hp). apply andb_true_iff in Hall as [H1 H2]. split; [apply plain_defb_ok; exact H1 | exact H2]. }
-  induction n as [|m IHm]; intros t v j a Hm Hs Ha; unfold ser in Hs.
-  - eapply lib_ev; [|exact Hm | exact Hs | exact Ha]. intros id d v' j' _ H. cbn in H. discriminate.
-  - eapply lib_ev; [|exact Hm | exact Hs | exact Ha]. intros id d v' j' Hlk H.
-    apply lookup_in in Hlk. destruct (Hall' _ Hlk) as [Hpd _]. cbn [snd] in Hpd.
-    destruct (dlookup_env_of R Hall' Hnd id d Hlk) as (dc & Hdl & Hdc).
-    destruct (plain_decl d Hpd dc Hdc) as (r & Hr & _ & Hps & Hbody).
-    eapply ev_ref; [exact Hdl | exact Hps |]. rewrite Hbody.
-    destruct gf as [|g']; [cbn in Hr; discriminate|]. cbn [Gen.gen] in Hr. cbn [sdef] in H.
-    eapply def_member; [|exact Hpd | exact H | exact Hr].
-    intros t0 v0 j0 a0 Hm0 Hs0 Ha0. eapply IHm; [exact Hm0 | exact Hs0 | exact Ha0].
+  induction n as [|m IHm]; intros g d id v j r Hlk Hs Hr; [cbn in Hs; discriminate|].
+  pose proof (lookup_in _ _ _ Hlk) as Hin. destruct (Hall' _ Hin) as [Hpd _]. cbn [snd] in Hpd.
+  destruct g as [|g']; [cbn in Hr; discriminate|]. cbn [Gen.gen] in Hr. cbn [sdef] in Hs.
+  (* references to definitions: through the declaration of the environment *)
+  assert (Href : forall id2 d2 v2 j2, lookup R id2 = Some d2 -> sdef is_upper R m d2 [] v2 = Some j2 -> ev (TRef (ts_ident d2) []) j2).
+  { intros id2 d2 v2 j2 Hlk2 Hs2. pose proof (lookup_in _ _ _ Hlk2) as Hin2. destruct (Hall' _ Hin2) as [Hpd2 _]. cbn [snd] in Hpd2.
+    destruct (dlookup_env_of R Hall' Hnd id2 d2 Hin2) as (dc & Hdl & Hdc).
+    destruct (plain_decl d2 Hpd2 dc Hdc) as (r2 & Hr2 & _ & Hps & Hbody).
+    eapply ev_ref; [exact Hdl | exact Hps |]. rewrite Hbody. eapply IHm; eassumption. }
+  eapply def_member; [| |exact Hpd | exact Hs | exact Hr].
+  - intros t0 v0 j0 a0 Hm0 Hs0 Ha0. eapply lib_ev; [exact Href | exact Hm0 | exact Hs0 | exact Ha0].
+  - intros t0 v0 j0 a0 Hm0 Hs0 Ha0. eapply lib_inline_ev; [|exact Hm0 | exact Hs0 | exact Ha0].
+    intros id2 d2 v2 j2 r2 Hlk2 Hs2 Hr2. eapply IHm; eassumption.
+Qed.
+
+Theorem derive_layer_member : forall n t v j a,
+  mono_ty t = true -> ser is_upper R n t v = Some j -> name_of R t = Ok a -> ev a j.
+Proof.
+  intros n t v j a Hm Hs Ha. unfold ser in Hs.
+  pose proof Henv as Henv'. unfold plain_envb in Henv'. apply andb_true_iff in Henv' as [Hall Hnd].
+  rewrite forallb_forall in Hall. apply nodupb_NoDup in Hnd.
+  assert (Hall' : forall p, In p R -> plain_def (snd p) /\ is_ok (decl_of gf (snd p)) = true).
+  { intros p Hp. specialize (Hall p Hp). apply andb_true_iff in Hall as [H1 H2]. split; [apply plain_defb_ok; exact H1 | exact H2]. }
+  eapply lib_ev; [|exact Hm | exact Hs | exact Ha].
+  intros id d v' j' Hlk H. pose proof (lookup_in _ _ _ Hlk) as Hin. destruct (Hall' _ Hin) as [Hpd _]. cbn [snd] in Hpd.
+  destruct (dlookup_env_of R Hall' Hnd id d Hin) as (dc & Hdl & Hdc).
+  destruct (plain_decl d Hpd dc Hdc) as (r & Hr & _ & Hps & Hbody).
+  eapply ev_ref; [exact Hdl | exact Hps |]. rewrite Hbody. eapply def_layer; eassumption.
+Qed.
+
+(* the same for the inline form of the type *)
+Theorem derive_layer_member_inline : forall n g t v j a,
+  mono_ty t = true -> ser is_upper R n t v = Some j -> lib_inline R (gen g) t = Ok a -> ev a j.
+Proof.
+  intros n g t v j a Hm Hs Ha. unfold ser in Hs.
+  eapply lib_inline_ev; [|exact Hm | exact Hs | exact Ha].
+  intros id d v' j' r Hlk H Hr. eapply def_layer; eassumption.
 Qed.
 End Knot.
